@@ -26,7 +26,7 @@ def run(r):
             res = pure.model_to_code(r, "TrimMC", cfg(ntok, gl, al, ns, sl, base=base), "trim", tag, extra_kw={"trace": tr},
                                       sort_key=lambda c: (json.dumps([c["lm"], c["rm"]]), -sum(len(g) for g in c["gaps"]) if hash(json.dumps(c["lm"])) % 2 else sum(len(g) for g in c["gaps"]), json.dumps(c["gaps"])))
             # the probe traces of the same runs against the trim actions of ParsleyMachine (conformance; a rejection is drift)
-            v = parsefam.validate_traces(r, [tr], [])
+            v = parsefam.validate_traces(r, parsefam.split_trace_file(r, tr, 8), [])
             stats.append({"tokens": ntok, "gaplen": gl, "slice": "%d/%d" % (sl, ns), "cases": res["cases"], "states": res["states"], "machine_traces": v})
     rnd = pure.code_to_model(r, "trim", "TrimTrace", "TrimTrace.cfg", 8 if th else 2, dict(n=400 if th else 150, maxtok=12),
                              lambda x: True, describe=lambda rows: rows[0])
